@@ -6,7 +6,8 @@
 (* binary search agrees with the definition; every explored transition prints its history for replay.             *)
 EXTENDS MapSlabTree, MapDict, Json
 
-CONSTANTS Keys, KSz, VSizes, MaxKeys, EmitEdges, EmitOneIn, WithReads
+CONSTANTS Keys, KSz, VSizes, MaxKeys, EmitEdges, EmitOneIn, WithReads,
+          AppendOnly   \* explore only growth in key order: every value-size stream (sources of the bulk builder, C17)
 
 VARIABLES tree, dict, nextId, hist, res
 mvars == <<tree, dict, nextId, hist, res>>
@@ -32,7 +33,8 @@ RemoveK(k) ==
      /\ Step(<<"mrem", k, KSz>>)
 GetK(k) == /\ res' = MGet(dict, k).r /\ UNCHANGED <<tree, dict, nextId>> /\ Step(<<"mget", k, KSz>>)
 
-Next == \/ \E k \in Keys, v \in VSizes : SetK(k, v)
+Next == IF AppendOnly THEN (\E v \in VSizes : Len(dict) + 1 \in Keys /\ SetK(Len(dict) + 1, v)) ELSE
+        \/ \E k \in Keys, v \in VSizes : SetK(k, v)
         \/ \E k \in (IF WithReads THEN Keys ELSE {j \in Keys : HasKey(dict, j)}) : RemoveK(k)
         \/ WithReads /\ \E k \in Keys : GetK(k)
 Spec == Init /\ [][Next]_mvars
